@@ -187,7 +187,7 @@ def arm_accounting(F, rep):
             f = dict(row[3])
             tax = f.get("tax")
             amt = f.get("amount")
-            taken = [x for x in subterms(tax) if isinstance(x, tuple) and x and x[0] == "call" and "HashMap" in x[1]]
+            taken = [x for x in subterms(tax) if isinstance(x, tuple) and x and x[0] == "call" and ("HashMap" in x[1] or "BTreeMap" in x[1])]
             consumed = any(parse_callee(x[1])[2] in ("remove", "remove_entry") for x in taken)
             key_ok = any(".date" in show(x[2][1]) and ".symbol" in show(x[2][1]) for x in taken if len(x[2]) == 2)
             rep.ob("R2", "dividend:withholding-consumed-once", consumed and key_ok,
@@ -200,12 +200,15 @@ def arm_accounting(F, rep):
             rep.ob("R2", "dividend:amount-from-row", a_ok, "dividend total is the row's own |Amount|" if a_ok else f"dividend amount is {show(amt)[:60]}",
                    b.loc(u["sp"]), key="R2:dividend:amount")
     # first pass: withholdings accumulate |amount| under (date, symbol)
-    wh = [(j, u) for j, u in b.calls() if is_dec_add(u["callee"])]
+    from rules.c08 import _R
+    rg = _R(F).region(b, depth=1)
     acc_ok = False
-    for j, u in wh:
-        rhs = tb.operand(u["args"][1])
-        if any(isinstance(x, tuple) and x and x[0] == "call" and parse_callee(x[1])[2] == "abs" for x in subterms(rhs)):
-            acc_ok = True
+    for it in rg.items:
+        u = it["term"]
+        if is_dec_add(u["callee"]):
+            rhs = it["tb"].operand(u["args"][1])
+            if any(isinstance(x, tuple) and x and x[0] == "call" and parse_callee(x[1])[2] == "abs" for x in subterms(rhs)):
+                acc_ok = True
     rep.ob("R2", "withholding:accumulated", acc_ok, "withholding rows are summed (absolute value) per key in the first pass" if acc_ok else
            "no accumulation of withholding amounts found", b.loc(), key="R2:withholding:accumulate")
     # Unknown rows: comment + warning + count  (match on the outer item enum)
@@ -239,36 +242,63 @@ def arm_accounting(F, rep):
             rep.ob("R2", f"{cb.short}:unmatched-warns", bool(warns), "an unmatched cancellation produces a warning" if warns else
                    "an unmatched Cancel Sell is dropped silently", cb.loc(), key=f"R2:{cb.short}:unmatched-warns")
             # predicate: each of date, symbol, quantity, price of the row is compared with the SAME field of the cancellation
+            # (inside the `position` closure or a helper it calls)
             for c in F.children(cb.id):
                 ccb = F.bodies[c]
-                ct = Terms(F, ccb, inline_depth=0)
+                is_pred = any(parse_callee(uu["callee"])[2] == "position" and _closure_arg_is(cb, uu, c) for jj, uu in cb.calls())
+                if not is_pred:
+                    continue
+                crg = _R(F).region(ccb, depth=1)
                 # captured operands (Rust 2021 captures the individual fields of `cancel`)
                 caps = []
                 for pi, psi, ps in cb.assigns():
                     if ps["rv"]["k"] == "closure" and ps["rv"]["id"] == c:
                         caps = [ctb.operand(o) for o in ps["rv"]["ops"]]
-                conds = [ct.operand(ccb.term(s_)["discr"]) for s_ in ccb.reachable() if ccb.term(s_)["k"] == "switch"] + [ct.local(0)]
                 keys = set()
-
-                def names_of(t):
-                    if c18_upvar(t):
-                        # substitute the capture
-                        from rules.c16 import _upvar_index
-                        k = _upvar_index(t)
-                        if k is not None and k < len(caps):
-                            t = caps[k]
-                    return {y[2] for y in subterms(t) if isinstance(y, tuple) and len(y) == 3 and y[0] == "field" and isinstance(y[2], str)}
-                for cnd in conds:
-                    for x in subterms(cnd):
-                        if isinstance(x, tuple) and x and x[0] == "cmp" and x[1] == "Eq" and x[2] != x[3]:
-                            if c18_upvar(x[2]) != c18_upvar(x[3]):  # one side from the captured cancellation, the other from the row
-                                keys |= (names_of(x[2]) & names_of(x[3])) & {"date", "symbol", "quantity", "price"}
+                for ex in crg.expansions:
+                    hb, ht, conv = ex["body"], ex["tb"], ex["conv"]
+                    conds = [ht.operand(hb.term(s_)["discr"]) for s_ in hb.reachable() if hb.term(s_)["k"] == "switch"] + [ht.local(0)]
+                    for cnd in conds:
+                        for x in subterms(conv(cnd)):
+                            if isinstance(x, tuple) and x and x[0] == "cmp" and x[1] == "Eq" and x[2] != x[3]:
+                                l, r_ = _subst_caps(x[2], caps), _subst_caps(x[3], caps)
+                                if _side(x[2]) != _side(x[3]):   # one side from the cancellation, the other from the row
+                                    keys |= (_field_names(l) & _field_names(r_)) & {"date", "symbol", "quantity", "price"}
                 need = {"date", "symbol", "quantity", "price"}
-                if caps:
-                    rep.ob("R2", f"{cb.short}:match-key", need <= keys,
-                           "a cancellation matches a sell on date, symbol, quantity and price" if need <= keys else
-                           f"cancellation compares only {sorted(keys)} between the cancel and the sell: it can remove a different sell", ccb.loc(),
-                           key=f"R2:{cb.short}:match-key")
+                rep.ob("R2", f"{cb.short}:match-key", need <= keys,
+                       "a cancellation matches a sell on date, symbol, quantity and price" if need <= keys else
+                       f"cancellation compares only {sorted(keys)} between the cancel and the sell: it can remove a different sell", ccb.loc(),
+                       key=f"R2:{cb.short}:match-key")
+
+
+def _closure_arg_is(b, call, cid):
+    from rules.c16 import _closure_of
+    return any(_closure_of(b, a) == cid for a in call["args"][1:])
+
+
+def _subst_caps(t, caps):
+    def sub(x):
+        if not isinstance(x, tuple) or not x:
+            return x
+        if x[0] == "field" and isinstance(x[1], tuple) and x[1] and x[1][0] == "param" and x[1][1] == 0:
+            try:
+                return caps[int(x[2])]
+            except (ValueError, IndexError):
+                return x
+        return tuple(sub(y) if isinstance(y, tuple) else y for y in x)
+    return sub(t)
+
+
+def _field_names(t):
+    return {y[2] for y in subterms(t) if isinstance(y, tuple) and len(y) == 3 and y[0] == "field" and isinstance(y[2], str)}
+
+
+def _side(t):
+    """which closure-level value a term is rooted at: 'env' (captured cancellation) or 'row' (the element under test)"""
+    for y in subterms(t):
+        if isinstance(y, tuple) and y and y[0] == "param":
+            return "env" if y[1] == 0 else "row"
+    return None
 
 
 def c18_upvar(t):
@@ -454,16 +484,21 @@ def output_pushes(F, rep, lf):
                 and any(parse_callee(t["callee"])[2] == "join" for _, t in hb.calls()):
             headers.add(hb.id)
     n = 0
-    for i, t in b.calls():
-        if parse_callee(t["callee"])[2] == "push" and "alloc::string::String" in (t.get("aty") or ["", ""])[1]:
-            n += 1
-            v = tb.operand(t["args"][1])
-            src = v[1] if isinstance(v, tuple) and v and v[0] == "call" else None
-            ok = src in lf or src in headers
-            rep.ob("R3", f"convert:push:{(src or show(v))[-40:]}", ok,
-                   f"output line produced by {src.split('::')[-1]}" if ok else
-                   f"a raw string ({show(v)[:60]}) is pushed to the DSL output without a line formatter", b.loc(t["sp"]),
-                   key=f"R3:convert:raw-line:{(src or 'expr')}")
+    spushes = [(i, t, tb.operand(t["args"][1]), root_of_operand(b, t["args"][0])) for i, t in b.calls()
+               if parse_callee(t["callee"])[2] == "push" and "alloc::string::String" in (t.get("aty") or ["", ""])[1]]
+    # the output vector is the one that receives formatter-produced lines; other Vec<String>s (e.g. the list of source file
+    # names handed to the header) are not DSL output
+    out_vecs = {r[0] for i, t, v, r in spushes if r and isinstance(v, tuple) and v and v[0] == "call" and (v[1] in lf or v[1] in headers)}
+    for i, t, v, r in spushes:
+        if r and out_vecs and r[0] not in out_vecs:
+            continue
+        n += 1
+        src = v[1] if isinstance(v, tuple) and v and v[0] == "call" else None
+        ok = src in lf or src in headers
+        rep.ob("R3", f"convert:push:{(src or show(v))[-40:]}", ok,
+               f"output line produced by {src.split('::')[-1]}" if ok else
+               f"a raw string ({show(v)[:60]}) is pushed to the DSL output without a line formatter", b.loc(t["sp"]),
+               key=f"R3:convert:raw-line:{(src or 'expr')}")
     rep.count("output_line_pushes", n)
     if n < 4:
         rep.unresolved("R3", "pushes", f"only {n} output-line pushes found in convert")
